@@ -855,7 +855,7 @@ def run(ctx: core.Ctx):
     # random trees: phase A (draw + probe), phase B (streams)
     depth = 4 if ctx.quick else 5
     base = ctx.fork('trees').getrandbits(40)
-    n_trees = ctx.n(300, 8000)
+    n_trees = ctx.n(300, 5000)
     descs = [{'seed': base + i, 'depth': depth if i % 3 else max(2, depth - 1)} for i in range(n_trees)]
     trees = [t for t in _pool_map(ctx, phase_a, descs) if t is not None]
     for t, a in zip(trees, core.Lean.run([t['probe'] for t in trees])):
